@@ -464,6 +464,43 @@ def shared_cache_twins(run: lib.Run) -> None:
                             return
 
 
+def shared_cache_replacements(run: lib.Run) -> None:
+    """TWO engines on ONE cache, and one of them is RE-PUBLISHED (set_policy / update_policy) while the other keeps its document:
+    P on both → second engine gets P' → P again → P', for every twin pair in both directions (documents json.dumps refuses included:
+    an engine that cannot fingerprint the document it now holds must not go on using the fingerprint of the one it held before —
+    its own cache is cleared by the publication, the neighbour's entries are not).  Every request goes to both engines after every
+    publication, next to uncached engines holding the same documents."""
+    reqs = POOL[:2] + [POOL[7], POOL[15], req(ctx={"day": "2026-09-29"})]
+    for name, p1, p2 in twin_policies() + literal_twins() + [("A vs unserialisable B", POL_A, _unserialisable(POL_B)),
+                                                              ("B vs unserialisable A", POL_B, _unserialisable(POL_A))]:
+        for order in (0, 1):
+            first, second = (p1, p2) if order == 0 else (p2, p1)
+            for cap, ttl, kind in ((2048, 300, "lru"), (0, 5, "dict")):
+                if kind == "dict" and "unserialisable" not in name:
+                    continue
+                cache = DefaultInMemoryCache(maxsize=cap) if kind == "lru" else DictCache()
+                keeper = Guard(copy.deepcopy(first), cache=cache, cache_ttl=ttl)
+                mover = Guard(copy.deepcopy(first), cache=cache, cache_ttl=ttl)
+                plain_keeper = Guard(copy.deepcopy(first))
+                for step, cur in enumerate((first, second, first, second)):
+                    if step:
+                        (mover.set_policy if step % 2 else mover.update_policy)(copy.deepcopy(cur))
+                    plain_mover = Guard(copy.deepcopy(cur))
+                    for rnd in (0, 1):
+                        for ri, r in enumerate(reqs):
+                            for who, g, plain in (("keeper", keeper, plain_keeper), ("mover", mover, plain_mover)):
+                                got, want = decision(g, r), decision(plain, r)
+                                run.case(["shared-replacement", name, order, cap, kind, step, rnd, ri, who], True)
+                                run.count("twin-policy:shared-cache-replacement")
+                                if got != want:
+                                    run.spec_failures.append({"part": "twin-policies", "pair": name + " (two engines, one cache, one re-published)",
+                                                              "first": repr(first)[:400], "second": repr(second)[:400], "publication": step,
+                                                              "engine": who, "maxsize": cap, "ttl": ttl, "cache": kind, "request": r,
+                                                              "cached": got, "uncached": want,
+                                                              "spec": "a cached engine returned a decision different from the uncached engine holding the same policy"})
+                                    return
+
+
 def changing_verdicts(run: lib.Run) -> None:
     """a custom checker (derived from the built-in one) whose own verdict changes from one evaluation of the SAME request to the next
     — a revocation list, a rate limit: every pattern of 4 verdicts on a cached engine next to an uncached engine with the same checker.
@@ -702,6 +739,7 @@ def check(run: lib.Run, audit: dict) -> int:
     run_cases(run)
     twin_cases(run)
     shared_cache_twins(run)
+    shared_cache_replacements(run)
     changing_verdicts(run)
     gather_cases(run)
     overlap_cases(run)
